@@ -559,3 +559,12 @@ impl<Ctx: OptCtx> LoweredToLir<'_, Ctx> {
         &mut self.ir.functions
     }
 }
+
+#[cfg(feature = "verif-hooks")]
+impl<Ctx: OptCtx> LoweredToMir<'_, Ctx> {
+    /// Verification hook (C08): structured dump of every MIR item in a
+    /// printer-independent vocabulary.
+    pub fn verif_c08_dump(&self) -> Vec<crate::verif_hooks::c08::FnDump> {
+        crate::verif_hooks::c08::dump_items(&self.ir, &self.runtime.rt)
+    }
+}
